@@ -1,3 +1,4 @@
+import Copia.Model.HubTrace
 import Copia.Driver.Util
 import Copia.Model.Hub
 namespace Copia.Driver.C12
@@ -75,6 +76,22 @@ def handle : List String → Option String
     let trS := if tr.isEmpty then "-" else ";".intercalate (tr.map fun (k, h) => hexStr k ++ "=" ++ h)
     let maxAlloc := s.allocs.foldl max 0
     some s!"exit={showExit s.exit} maxalloc={maxAlloc} replies={"|".intercalate (s.replies.map (showReply hashOf))} tree={trS}"
+  | ["hubcalls", kind, cur, expected, declared, content] => do
+    -- the labels of a solo Put / Delete (Model/HubTrace): hashes are small numeric codes, 0 = hash of the empty content
+    let optNat := fun (t : String) => if t = "-" then some (none : Option Nat) else t.toNat?.map some
+    let cur ← optNat cur
+    let expected ← optNat expected
+    let declared ← declared.toNat?
+    let content ← content.toNat?
+    let H : List Nat → Nat := fun l => match l with | [] => 0 | [x] => x | _ => 999999
+    let S : Copia.HubConc.Sys := { H := H, staging := fun _ => false, tmpOf := fun i p => 1000 + 10 * i + p,
+                                   cname := fun _ _ => 2000,
+                                   req := fun _ => { dst := 0, expected := expected, chunks := if content = 0 then [] else [content], declared := declared } }
+    let s0 : Copia.HubConc.State := { dir := fun p => if p = 0 then cur.map (fun _ => 0) else none,
+                                      ino := fun n => if n = 0 then (match cur with | some c => if c = 0 then [] else [c] | none => []) else [],
+                                      next := 1, lock := none, pc := fun _ => .start }
+    let calls := if kind = "put" then (Copia.HubConc.soloPut S s0 1).2 else (Copia.HubConc.soloDelete S s0 1).2
+    some (",".intercalate (calls.map Copia.HubConc.Call.name))
   | ["safejoin", rel] => do
     let rel ← strOfHex rel
     some (match safeJoin [] rel with
